@@ -248,6 +248,37 @@ func (ae *AEval) Eval(t *Term, cell Cell, depth int) AVal {
 				return AVal{Kind: "int", I: arith(op, x.I, y.I)}
 			}
 		}
+	case "index":
+		// an element of a never-written package-level integer table: the hull over the index's cell
+		if len(t.Args) == 2 && t.Args[0].Op == "gval" && strings.HasPrefix(t.Args[0].Sym, "otp.") && ae.W != nil {
+			name := strings.TrimPrefix(t.Args[0].Sym, "otp.")
+			var g *ssa.Global
+			if sp := ae.W.SPkgs[OtpPath]; sp != nil {
+				g, _ = sp.Members[name].(*ssa.Global)
+			}
+			idx := ae.Eval(t.Args[1], cell, depth)
+			if g != nil && ae.W.GlobalNeverWritten(g) && idx.Kind == "int" && idx.I.Lo != nil && idx.I.Hi != nil {
+				if tab, err := ae.W.IntTable(OtpPath, name); err == nil && idx.I.Lo.Sign() >= 0 && idx.I.Hi.Cmp(big.NewInt(int64(len(tab))-1)) <= 0 && idx.I.Hi.IsInt64() {
+					var r *AVal
+					for k := idx.I.Lo.Int64(); k <= idx.I.Hi.Int64(); k++ {
+						if tab[k] == nil {
+							r = nil
+							break
+						}
+						v := AVal{Kind: "int", I: point(tab[k])}
+						if r == nil {
+							r = &v
+						} else {
+							j := joinAVal(*r, v)
+							r = &j
+						}
+					}
+					if r != nil {
+						return *r
+					}
+				}
+			}
+		}
 	case "ite":
 		cnd := ae.Eval(t.Args[0], cell, depth)
 		if cnd.Kind == "bool" && cnd.B == TriTrue {
